@@ -17,6 +17,7 @@ func main() {
 		os.Exit(3)
 	}
 	prop := os.Args[1]
+	vk.StartHeartbeat() // process stall detector used by the few elapsed-time upper-bound rules
 	fs := flag.NewFlagSet(prop, flag.ExitOnError)
 	tier := fs.String("tier", "quick", "quick|thorough")
 	seed := fs.Int64("seed", 1, "seed")
